@@ -138,6 +138,12 @@ def run(ctx):
             txt = relayout(txt, rng)
         out = outcome(lambda: ep.parse(txt), dump_expr)
         cases.append(({'entry': 'expression', 'text': txt, 'family': 'chain'}, out, dumps([S('parse'), S('expression'), txt]), dumps([S('build'), to_wire(r)]), 'valid'))
+    # a keyword glued to the end of a number (`\\b` of the keyword terminals): `10.in xs` is `10. in xs`, `10in xs` is a syntax error
+    for tok in NUMBERS + ['10.', '2.e1', '3e2', '7.5']:
+        for txt in (f'x in [{tok}to 9]', f'y = {tok}and b', f'{tok}in xs', f'b or x > {tok}or c', f'x < {tok}implies b', f'x = {tok}iff b',
+                    f'xs[{tok}] > 0', f'x = {tok}.y', f'{tok}x > 0', f'forall i in [0 to {tok}]: @i > 0'):
+            out = outcome(lambda: ep.parse(txt), dump_expr)
+            cases.append(({'entry': 'expression', 'text': txt, 'family': 'number-keyword'}, out, dumps([S('parse'), S('expression'), txt]), None, 'mutated'))
     pg = PropGen(rng, max_depth=2)
     props = []
     for _ in range(n // 3):
